@@ -820,8 +820,10 @@ void Exec::do_eval(const Step& st, const Client& cl, int ev, int depth) {
     const std::string& o = need_cxx ? co2.out : out_first;
     if (!contains(o, "MASA ERROR"))  // also matches "SMASA ERROR"
       viol("C15", "C15.message", sg, "no 'MASA ERROR' / 'SMASA ERROR' line on stdout");
-    if (C && hasC && need_cxx && !contains(out_first, "MASA ERROR"))
-      viol("C15", "C15.message", sg, "no 'MASA ERROR' / 'SMASA ERROR' line on stdout (C entry point)");
+    if (doC && !contains(out_first, "MASA ERROR"))
+      viol("C15", "C15.message", sg, "no 'MASA ERROR' / 'SMASA ERROR' line on stdout (C entry point " + std::string(E.cname) + ")");
+    if (doC && bits_of(rc) != bits_of(S(-1.33)))
+      viol("C15", "C15.sentinel", sg, std::string("undocumented evaluator returned ") + fmt_ld(rc) + " instead of -1.33 through the C entry point " + E.cname);
     if (!selection_moved) verify_selected<S>(prec, inst2, "C15", "C15.frame");
     return;
   }
@@ -868,6 +870,12 @@ void Exec::do_eval(const Step& st, const Client& cl, int ev, int depth) {
       viol("C11", "C11.lastset.stale", sol.name + ":" + E.shortname + "/" + E.sig,
            "an instance kept returning the bits it had returned before its parameters were changed, while an instance holding the same values "
            "returns other bits: the evaluator did not use the values last set");
+  }
+  if (doC && need_cxx) {
+    auto it2 = purity.find(key);
+    if (it2 != purity.end() && it2->second.first != bits_of(rc))
+      viol("C10", "C10.purity.c_api", sol.name + ":" + E.shortname + "/" + E.sig,
+           std::string(E.cname) + " returns " + fmt_ld(rc) + " [" + fmt_bits(bits_of(rc)) + "] but the same solution, parameters and arguments evaluate to [" + fmt_bits(it2->second.first) + "]");
   }
   // evaluating never changes a parameter
   if (!selection_moved) verify_selected<S>(prec, inst2, "C10", "C10.frame.eval");
